@@ -1290,6 +1290,11 @@ def processed_with_inputs(
     ignore_error: bool = False,
 ) -> Iterator[tuple[_ValueT, _InputT]]:
   """Zips the processed outputs with its inputs."""
+  if ignore_error:
+    # A skippable error raised by the input iterator itself is skipped here:
+    # it never enters the tee buffer, so it must not surface from `process_fn`
+    # as a `_SKIP` marker that takes a recorded input off the buffer.
+    input_iterator = iter_ignore_error(input_iterator)
   iter_input = _TeeIterator(input_iterator, buffer_size=max_buffer_size)
   iter_output = process_fn(iter_input)
   if ignore_error:
